@@ -667,7 +667,7 @@ func (s *Server) cmdSET(msg *Message) (resp.Value, commandDetails, error) {
 			exval := args[i+1]
 			i += 1
 			x, err := strconv.ParseFloat(exval, 64)
-			if err != nil {
+			if err != nil || math.IsNaN(x) {
 				return retwerr(errInvalidArgument(exval))
 			}
 			ex = deadlineAfter(time.Now(), x)
@@ -1070,7 +1070,7 @@ func (s *Server) cmdEXPIRE(msg *Message) (resp.Value, commandDetails, error) {
 	}
 	key, id, svalue := args[1], args[2], args[3]
 	value, err := strconv.ParseFloat(svalue, 64)
-	if err != nil {
+	if err != nil || math.IsNaN(value) {
 		return retwerr(errInvalidArgument(svalue))
 	}
 
